@@ -19,6 +19,14 @@ DEFAULT_ORDER = (
 )
 
 
+# Public attributes of pydantic's BaseModel: a field with one of these names makes the class definition fail
+# ("Field name ... shadows a BaseModel attribute")
+BASE_MODEL_ATTRIBUTES = frozenset({
+    'Config', 'construct', 'copy', 'dict', 'from_orm', 'json', 'parse_file', 'parse_obj', 'parse_raw',
+    'schema', 'schema_json', 'update_forward_refs', 'validate',
+})
+
+
 class PydanticModelCodeGenerator(GenericModelCodeGenerator):
     PYDANTIC_FIELD = template("Field({{ default }}{% if kwargs %}, KWAGRS_TEMPLATE{% endif %})"
                               .replace('KWAGRS_TEMPLATE', KWAGRS_TEMPLATE))
@@ -38,6 +46,12 @@ class PydanticModelCodeGenerator(GenericModelCodeGenerator):
         """
         kwargs['post_init_converters'] = False
         super().__init__(model, **kwargs)
+
+    def convert_field_name(self, name):
+        name = super().convert_field_name(name)
+        if name in BASE_MODEL_ATTRIBUTES:
+            name += "_"
+        return name
 
     def generate(self, nested_classes: List[str] = None, extra: str = "", **kwargs) \
             -> Tuple[ImportPathList, str]:
